@@ -492,6 +492,15 @@ class Interp:
         if isinstance(node, ast.UnaryOp) and isinstance(node.op, ast.Not):
             t = self.static(node.operand)
             return None if t is None else not t
+        if isinstance(node, ast.Compare) and len(node.ops) == 1 and isinstance(node.ops[0], ast.In) \
+                and isinstance(node.comparators[0], (ast.List, ast.Tuple)) \
+                and all(isinstance(e, ast.Constant) and isinstance(e.value, str) for e in node.comparators[0].elts):
+            a = self.ev(node.left)
+            if a.kind == 'str':
+                return None          # dynamic: `name in ['a', 'b']` -> a disjunction of string comparisons (dyn_cond)
+            if a.kind == 'py' and isinstance(a.const, str):
+                return a.const in [e.value for e in node.comparators[0].elts]
+            raise TranslateError('unsupported membership test ' + ast.unparse(node))
         if isinstance(node, ast.Compare) and len(node.ops) == 1:
             a, b = self.ev(node.left), self.ev(node.comparators[0])
             op = type(node.ops[0])
@@ -511,6 +520,10 @@ class Interp:
         raise TranslateError('condition is neither static nor a comparison with a string: ' + ast.unparse(node))
 
     def dyn_cond(self, node):
+        if isinstance(node.ops[0], ast.In):
+            a = self.ev(node.left)
+            names = [e.value for e in node.comparators[0].elts]
+            return '(' + ' ∨ '.join('%s = "%s"' % (a.term, c.replace('\\', '\\\\').replace('"', '\\"')) for c in names) + ')'
         a, b = self.ev(node.left), self.ev(node.comparators[0])
         s, c = (a, b) if a.kind == 'str' else (b, a)
         if not isinstance(c.const, str):
